@@ -10,6 +10,8 @@ import (
 	"strings"
 
 	"github.com/janelia-flyem/dvid/datastore"
+	"github.com/janelia-flyem/dvid/datatype/labelmap"
+	"github.com/janelia-flyem/dvid/dvid"
 
 	"verif/vsrv"
 )
@@ -584,6 +586,55 @@ func c11Scenarios() []c11Scenario {
 			}
 			return append(bad, c11PersistedIDs()...)
 		}})
+	// S6e: every block ingest starts `go d.updateBlockMaxLabel(v, block)`, which outlives the request; a label allocation
+	// served inside that background step must not be undone by it. The step is driven directly (overlay export) for a
+	// block carrying label 8 (labels 1..5 exist), against POST nextlabel/10; S6f: two such steps against each other and
+	// an allocation.
+	blockUpdate := func(w *c11World, i int, label uint64) func() {
+		return func() {
+			d, err := labelmap.GetByUUIDName(dvid.UUID(w.root), "lm")
+			v, err2 := datastore.VersionFromUUID(dvid.UUID(w.root))
+			if err != nil || err2 != nil {
+				w.resp[i] = vsrv.Resp{Code: 500, Body: []byte(fmt.Sprint(err, err2))}
+				return
+			}
+			labelmap.VerifUpdateBlockMaxLabel(d, v, []uint64{0, 2, label})
+			w.resp[i] = vsrv.Resp{Code: 200}
+		}
+	}
+	allocVerdict := func(stored uint64, allocAt int) func(w *c11World) []string {
+		return func(w *c11World) (bad []string) {
+			type rng struct{ Start, End uint64 }
+			top := stored
+			if acked(w.resp[allocAt]) {
+				var r rng
+				json.Unmarshal(w.resp[allocAt].Body, &r)
+				if r.Start <= 5 || r.End < r.Start {
+					bad = append(bad, fmt.Sprintf("label-range-wrong\tallocation answered %s (existing labels are 1..5)", w.resp[allocAt]))
+				}
+				if r.End > top {
+					top = r.End
+				}
+			}
+			nx := vsrv.Post("node/"+w.root+"/lm/nextlabel/1", nil)
+			var r3 rng
+			json.Unmarshal(nx.Body, &r3)
+			if nx.OK() && r3.Start <= top {
+				bad = append(bad, fmt.Sprintf("label-reissued\tafter the max-label update of an ingested block with label %d and a concurrent allocation answering %s, a later nextlabel returned %d: not above everything stored or handed out (%d)", stored, strings.TrimSpace(string(w.resp[allocAt].Body)), r3.Start, top))
+			}
+			return
+		}
+	}
+	sc = append(sc, c11Scenario{name: "S6e:ids:block-maxlabel-update||nextlabel", setup: lmWorld,
+		bodies: func(w *c11World) []func() {
+			return []func(){blockUpdate(w, 0, 8), func() { w.resp[1] = vsrv.Post("node/"+w.root+"/lm/nextlabel/10", nil) }}
+		},
+		verdict: allocVerdict(8, 1)})
+	sc = append(sc, c11Scenario{name: "S6f:ids:block-maxlabel-update||block-maxlabel-update||nextlabel", setup: lmWorld,
+		bodies: func(w *c11World) []func() {
+			return []func(){blockUpdate(w, 0, 8), blockUpdate(w, 1, 12), func() { w.resp[2] = vsrv.Post("node/"+w.root+"/lm/nextlabel/3", nil) }}
+		},
+		verdict: allocVerdict(12, 2)})
 	sc = append(sc, c11Scenario{name: "S4c:labelmap:cleave||cleave:same-body", setup: func() (*c11World, error) {
 		w, err := lmWorld()
 		if err == nil {
